@@ -52,6 +52,20 @@ fn phase_weight(c: &SrtlaConnection) -> f64 {
     }
 }
 
+/// "Over its in-flight cap", written from the documented formula (independently of the code's predicate):
+/// cap = max(1, floor(target_bps x rtt_min_s / 8 x 1.5 / 1316)) packets, inactive without a published target,
+/// rtt_min falls back to 1 ms until a baseline exists; over the cap iff in-flight packets > cap. Packets that are
+/// still queued for the next flush are not in flight.
+fn over_cap(c: &SrtlaConnection) -> bool {
+    if c.cc_target_bps == 0 {
+        return false;
+    }
+    let r = c.get_rtt_min_ms();
+    let rtt_ms = if r.is_finite() && r > 0.0 { r } else { 1.0 };
+    let cap = ((c.cc_target_bps as f64) * (rtt_ms / 1000.0) / 8.0 * 1.5 / 1316.0).floor().max(1.0);
+    (c.in_flight_packets as f64) > cap
+}
+
 fn cap_factor(c: &SrtlaConnection) -> f64 {
     let target = c.cc_target_bps;
     let measured = c.bitrate.current_bitrate_bps;
@@ -92,7 +106,16 @@ pub fn check(case: &SelCase, obs: &mut Obs) -> CheckResult {
                 !timed_out && !matches!(c.phase, LinkPhase::Registering) && !c.is_stall_gated()
             })
             .collect();
-        let capped: Vec<bool> = w.links.iter().map(in_flight_cap_exceeded).collect();
+        let capped: Vec<bool> = w.links.iter().map(over_cap).collect();
+        for (i, c) in w.links.iter().enumerate() {
+            if capped[i] != in_flight_cap_exceeded(c) {
+                // the code's own predicate disagrees with the documented formula
+                return crate::rt::viol(
+                    "cap-predicate",
+                    format!("step {step}: link {i} (target {} bit/s, rtt_min {} ms, in flight {}, queued {}): the code says over-cap={}, the documented formula says {}", c.cc_target_bps, c.get_rtt_min_ms(), c.in_flight_packets, c.batch_sender.queued_count(), in_flight_cap_exceeded(c), capped[i]),
+                );
+            }
+        }
         let any_unconstrained = (0..n).any(|i| eligible[i] && !w.links[i].weak && !w.links[i].loss_degraded && !capped[i]);
         let scored: Vec<bool> = (0..n).map(|i| eligible[i] && !(any_unconstrained && capped[i])).collect();
         let mut scores: Vec<Option<f64>> = vec![None; n];
@@ -209,7 +232,7 @@ pub fn check(case: &SelCase, obs: &mut Obs) -> CheckResult {
 
 pub fn run(ctx: &Ctx) -> &'static str {
     ctx.assume("score_i = floor(window/(in-flight+queued+1)) x phase weight (warming 0.8) x quality multiplier actually used (read through the hook accessor; checked against the documented formula whenever it was refreshed at this instant, and to be < 50 ms old otherwise) x clamp((target-measured)/target, 0.1, 1) x 0.02 if weak/loss-degraded while an unconstrained link exists");
-    ctx.assume("'over its in-flight cap' is the code's public predicate in_flight_cap_exceeded; float comparisons use a 1e-9 relative band inside which both outcomes are accepted");
+    ctx.assume("'over its in-flight cap' is computed from the documented formula (cap = max(1, floor(target x rtt_min / 8 x 1.5 / 1316)), in-flight > cap, queued packets do not count) and compared with the code's public predicate; float comparisons use a 1e-9 relative band inside which both outcomes are accepted");
     for (file, body) in ctx.replay_files() {
         if !ctx.replay_case::<SelCase, _>("states", &file, &body, check)
             && !ctx.replay_case::<crate::props::decide::Case, _>("glue", &file, &body, |c, o| crate::props::decide::check(c, o, crate::props::decide::Which::C11, ctx))
